@@ -64,6 +64,13 @@ HoleCases ==
       porder |-> <<2, 1>>, aorder |-> <<1, 2>>] :
         x \in {y \in SeqsOf([g : HoleGeoms, cls : {1}], 2) \X SeqsOf([g : HoleGeoms, sc : {<<3, 1>>}], 2) :
                   Len(y[1]) + Len(y[2]) <= 3 /\ Len(y[1]) >= 1 /\ Len(y[2]) >= 1}}
+\* time-only events against boxes: a TimeStamp (grown by the default 0.01 s) and a TimeInterval, overlapping / touching / apart
+TimeGeoms == {<<G("TimeStamp", 2)>>, <<G("TimeInterval", <<1, 3>>)>>, <<I1>>, <<I3>>}
+TimeCases ==
+    {[kind |-> "lat", vocab |-> 2, clips |-> <<Anchor, [id |-> 2, anns |-> x[1], preds |-> x[2]]>>,
+      porder |-> <<2, 1>>, aorder |-> <<1, 2>>] :
+        x \in {y \in SeqsOf([g : TimeGeoms, cls : {1}], 2) \X SeqsOf([g : TimeGeoms, sc : {<<3, 1>>}], 2) :
+                  Len(y[1]) + Len(y[2]) <= 3 /\ Len(y[1]) >= 1 /\ Len(y[2]) >= 1}}
 \* "terms": vocabularies, annotation tags and predicted tags over tags whose terms share a label or a name (Detection: tag table)
 VocOpts  == {<<1, 4>>, <<1, 2>>, <<2, 1>>, <<3, 1>>, <<4, 3>>, <<2, 3>>}
 ATagOpts == {<<>>, <<1>>, <<2>>, <<3>>, <<4>>, <<2, 1>>}
@@ -74,7 +81,7 @@ TermCases ==
       porder |-> <<2, 1>>, aorder |-> <<1, 2>>] : v \in VocOpts, a \in ATagOpts, p \in PTagOpts}
 Cases == CASE Universe = "events" -> EventCases
            [] Universe = "clips"  -> ClipCases
-           [] Universe = "extra"  -> HoleCases \cup TermCases
+           [] Universe = "extra"  -> HoleCases \cup TermCases \cup TimeCases
 
 (* ---- rationals ---- *)
 RMean(s) ==     \* mean of a sequence of rationals, <<0, 1>> for the empty sequence (_mean returns 0.0)
@@ -97,7 +104,11 @@ WithGeom(s) == LET RECURSIVE F(_)
 \* exact affinities of the filtered lists, scaled to integers
 SrcG == [k \in DOMAIN fp |-> Some(P[fp[k]].g)]
 TgtG == [k \in DOMAIN fa |-> Some(A[fa[k]].g)]
-W == Mat!ExactW(SrcG, TgtG)
+\* the model runs at unit 1 s (100 hundredths per tick); the implementation leaves a TimeInterval as it is (reading 0)
+ModelS == 100
+DetR(i, j) == Mat!Guarded(DetAff(SrcG[i], TgtG[j], ModelS, 0))
+DetD == Mat!LcmSet({DetR(i, j)[2] : i \in DOMAIN SrcG, j \in DOMAIN TgtG})
+W == [i \in DOMAIN SrcG |-> [j \in DOMAIN TgtG |-> DetR(i, j)[1] * (DetD \div DetR(i, j)[2])]]
 n == Len(fp)
 m == Len(fa)
 Complete == {Q \in SUBSET ((1..n) \X (1..m)) : Mat!OneToOne(Q) /\ Cardinality(Q) = Min(n, m)}
@@ -112,7 +123,7 @@ Answer(Q) ==
         lr   == SortedSeq((1..n) \ {q[1] : q \in Q})
         lc   == SortedSeq((1..m) \ {q[2] : q \in Q})
         col(i) == (CHOOSE q \in Q : q[1] = i)[2]
-    IN  [k \in DOMAIN rows |-> [s |-> <<rows[k]>>, t |-> <<col(rows[k])>>, a |-> Mat!AffRat(SrcG[rows[k]], TgtG[col(rows[k])])]]
+    IN  [k \in DOMAIN rows |-> [s |-> <<rows[k]>>, t |-> <<col(rows[k])>>, a |-> DetR(rows[k], col(rows[k]))]]
         \o [k \in DOMAIN lr |-> [s |-> <<lr[k]>>, t |-> <<>>, a |-> <<0, 1>>]]
         \o [k \in DOMAIN lc |-> [s |-> <<>>, t |-> <<lc[k]>>, a |-> <<0, 1>>]]
 \* which event of the clip an index returned by the matcher denotes
@@ -171,7 +182,7 @@ ImplClips    == Ok => /\ \A j, k \in DOMAIN outclips : j # k => outclips[j].id #
                       /\ {outclips[k].id : k \in DOMAIN outclips} = Evaluated(c)
 ImplEveryEventOnce == Ok => \A k \in DOMAIN outclips : EveryEventOnceOf(outclips[k].m, ClipIn(k).preds, ClipIn(k).anns)
 ImplPairedOnlyIfOverlap == Ok => \A k \in DOMAIN outclips : LatOverlapOf(outclips[k].m, ClipIn(k).preds, ClipIn(k).anns)
-ImplPairAffinity == Ok => \A k \in DOMAIN outclips : LatAffinityOf(outclips[k].m, ClipIn(k).preds, ClipIn(k).anns, EqR)
+ImplPairAffinity == Ok => \A k \in DOMAIN outclips : LatAffinityOf(outclips[k].m, ClipIn(k).preds, ClipIn(k).anns, ModelS, EqR)
 ImplPairScore    == Ok => \A k \in DOMAIN outclips : PairScoreOf(outclips[k].m, ClipIn(k).preds, ClipIn(k).anns, V, EqR)
 ImplUnpairedZero == Ok => \A k \in DOMAIN outclips : UnpairedZeroOf(outclips[k].m, ZeroR)
 ImplClipMean     == Ok => \A k \in DOMAIN outclips :
